@@ -2,6 +2,7 @@ import LZ4V.Judge.Frame
 import LZ4V.Spec.FrameLExec
 import LZ4V.Model.Legacy
 import LZ4V.Model.CliFrame
+import LZ4V.Model.CliLinked
 /-!
 # Judge for CLI records
 
@@ -59,6 +60,17 @@ def judgeCliArchive (r : Rec) : Verdict := Id.run do
           v := { v with fails := ("model_cli_archive_differs", s!"build mt={r.nat 9} level {r.int 8} bsid {r.nat 10} bx {r.nat 11} cc {r.nat 12} cs {r.nat 13}, content {content.size} bytes: model archive {a.length} bytes, real {archive.size} bytes, first difference at {d}") :: v.fails }
         else mtags := [if r.nat 9 == 1 then "climodel.same.mt" else if content.size < LZ4V.Spec.Frame.blockSizeOf (r.nat 10) then "climodel.same.st.single" else "climodel.same.st.streamed"]
       | none => mtags := ["climodel.not_applicable"]
+    -- `lz4 -BD FILE` (linked blocks) at a fast level: the archive model Model/CliLinked.lean (the schedule lz4io.c / lz4frame.c follow, over the stream model;
+    -- proved to decode to the input for every schedule) must produce the very same bytes
+    if !legacy && r.args.size > 14 && r.int 8 < LZ4V.Gen.LZ4HC_CLEVEL_MIN && dict.size == 0 && r.nat 10 != 0 && r.nat 14 == 0 && content.size ≤ 300000 then
+      let o : LZ4V.Model.CliFrame.Opts := { bsidReq := r.nat 10, blockChecksum := r.nat 11 == 1, contentChecksum := r.nat 12 == 1, contentSize := r.nat 13 == 1, level := r.int 8 }
+      match LZ4V.Model.CliLinked.archive LZ4V.Spec.FrameL.xxhEnv (fun s b => LZ4V.Model.Fast.realHash s b) (r.nat 9 == 1) o content.toList with
+      | some a =>
+        if a != archive.toList then
+          let d := (List.range (min a.length archive.size)).find? (fun i => a.getD i 0 != archive.get! i)
+          v := { v with fails := ("model_cli_archive_differs", s!"-BD build mt={r.nat 9} level {r.int 8} bsid {r.nat 10} bx {r.nat 11} cc {r.nat 12} cs {r.nat 13}, content {content.size} bytes: model archive {a.length} bytes, real {archive.size} bytes, first difference at {d}") :: v.fails }
+        else mtags := [if r.nat 9 == 1 then "clilinked.same.mt" else if content.size < LZ4V.Spec.Frame.blockSizeOf (r.nat 10) then "clilinked.same.st.single" else "clilinked.same.st.streamed"]
+      | none => mtags := ["clilinked.not_applicable"]
     if legacy && !(kinds.all (· == Kind.legacy)) then v := { v with fails := ("archive_not_legacy", s!"{repr kinds}") :: v.fails }
     if !legacy && !(kinds.all (· == Kind.lz4)) then v := { v with fails := ("archive_not_lz4_frames", s!"{repr kinds}") :: v.fails }
     if !legacy && kinds.size == 1 then
